@@ -150,6 +150,8 @@ fn resource_rich() -> BoxedStrategy<E> {
         3 => "[a-zA-Z]{1,3}".prop_map(|p| E::T(Tst::IName(p))),
         1 => "[a-z/]{1,4}".prop_map(|p| E::T(Tst::Path(p))),
         3 => "[a-z]{1,2}".prop_map(|f| E::A(Act::FPrint(f))),
+        1 => prop::sample::select(crate::dict::paths()).prop_map(|f| E::A(Act::FPrint(f))),
+        1 => prop::sample::select(vec!["/dev/stdout", "/dev/stderr"]).prop_map(|f| E::A(Act::FPrintf(f.to_string(), vec![FEl::F(Fld::NameNoStart), FEl::E(Esc::Newline)]))),
         2 => "[a-z]{1,2}".prop_map(|f| E::A(Act::FPrint0(f))),
         1 => Just(E::A(Act::Print)),
         1 => Just(E::A(Act::Print0)),
